@@ -149,6 +149,10 @@ func child() {
 	zerolog.SetGlobalLevel(zerolog.Level(gl))
 	w := &recLW{}
 	lg := zerolog.New(w).Level(zerolog.Level(ll))
+	if strings.HasSuffix(kind, "+reject") {
+		lg = lg.Sample(&countSampler{admit: false})
+		kind = strings.TrimSuffix(kind, "+reject")
+	}
 	switch kind {
 	case "fatal":
 		lg.Fatal().Msg("x")
@@ -284,6 +288,21 @@ func main() {
 			if !p || (w.n == 1) != wantW {
 				r.Violation("", fmt.Sprint("panic/", wantW), fmt.Sprintf("logger level %d, global level %d: Panic().Msg panicked=%v (want true) writes=%d (want %v)", ll, gl, p, w.n, wantW), nil)
 			}
+			// filtered by the SAMPLER rather than by a level: still panics, writes nothing
+			lgRej := lg.Sample(&countSampler{admit: false})
+			w.n = 0
+			p3 := func() (pan bool) {
+				defer func() {
+					if recover() != nil {
+						pan = true
+					}
+				}()
+				lgRej.Panic().Msg("boom")
+				return false
+			}()
+			if !p3 || w.n != 0 {
+				r.Violation("", "panic/sampler-rejected", fmt.Sprintf("logger level %d, global level %d, rejecting sampler: Panic().Msg panicked=%v (want true) writes=%d (want 0)", ll, gl, p3, w.n), nil)
+			}
 			p2 := func() (pan bool) {
 				defer func() {
 					if recover() != nil {
@@ -362,6 +381,18 @@ func main() {
 					continue
 				}
 				r.Eval(fname+"/"+desc, j >= 0)
+				// what a filtered event answers: Enabled() false, GetCtx() the background context, and every
+				// chaining method hands back the same inert (nil) event
+				if pan == "" && j < 0 && len(out) == 1 {
+					switch {
+					case out[0].Kind() == reflect.Bool && out[0].Bool():
+						r.Violation("", "inert-result/"+desc, fmt.Sprintf("%s event: %s() returned true", fname, desc), nil)
+					case out[0].Type() == tEv && !out[0].IsNil():
+						r.Violation("", "inert-result/"+desc, fmt.Sprintf("%s event: %s returned a non-nil *Event", fname, desc), nil)
+					case out[0].Type() == tCtx && (out[0].IsNil() || out[0].Interface().(context.Context) != context.Background()):
+						r.Violation("", "inert-result/"+desc, fmt.Sprintf("%s event: %s() did not return the background context", fname, desc), nil)
+					}
+				}
 				if pan != "" || len(invoked) > 0 || w.n > 0 || hk2.calls > 0 {
 					r.Violation("", "inert/"+fname+"/"+desc, fmt.Sprintf("%s event: %s: panic=%q invoked=%v writes=%d hooks=%d", fname, desc, pan, invoked, w.n, hk2.calls), nil)
 				}
@@ -382,7 +413,7 @@ func main() {
 	// Fatal in child processes: 9 named logger levels x {global trace, global above fatal}
 	for _, ll := range []int{-1, 0, 1, 2, 3, 4, 5, 6, 7} {
 		for _, gl := range []int{-1, 5, 7} {
-			for _, kind := range []string{"fatal", "withlevel-fatal"} {
+			for _, kind := range []string{"fatal", "withlevel-fatal", "fatal+reject"} {
 				cmd := exec.Command(os.Args[0])
 				cmd.Env = append(os.Environ(), fmt.Sprintf("C04_CHILD=%s %d %d", kind, ll, gl))
 				outb, err := cmd.Output()
@@ -394,7 +425,7 @@ func main() {
 					os.Exit(2)
 				}
 				r.Eval(fmt.Sprint("child", kind, ll, gl, code), true)
-				if kind == "fatal" && (code != 1 || strings.Contains(string(outb), "RETURNED")) {
+				if (kind == "fatal" || kind == "fatal+reject") && (code != 1 || strings.Contains(string(outb), "RETURNED")) {
 					r.Violation("", "fatal-exit", fmt.Sprintf("logger level %d global %d: Fatal().Msg did not exit with status 1 (status %d, output %q)", ll, gl, code, outb), nil)
 				}
 				if kind == "withlevel-fatal" {
